@@ -18,12 +18,14 @@ import (
 	"math/rand"
 	"os"
 	"runtime"
+	"strings"
 	"sync"
 	"sync/atomic"
 	"time"
 
 	"github.com/IrineSistiana/mosdns/v5/pkg/upstream"
 	fastforward "github.com/IrineSistiana/mosdns/v5/plugin/executable/forward"
+	"github.com/IrineSistiana/mosdns/v5/plugin/executable/sequence"
 	"github.com/miekg/dns"
 
 	"verifharness/lib/evid"
@@ -232,7 +234,7 @@ func runPool(phase string, cases []*caseDesc, par int) {
 					rep.Count("cases_skipped_after_goroutine_leak", 1)
 					continue
 				}
-				runs[i] = runCase(cases[i], nil, nil)
+				runs[i] = runCase(cases[i], nil, nil, nil)
 			}
 		}()
 	}
@@ -287,6 +289,162 @@ func runOrdered(label string, cases []*caseDesc) {
 	}
 }
 
+// ---- several tag-subset executables on ONE Forward ----
+//
+// A configuration references the same forward plugin with different tag
+// subsets; each reference is its own upstream list U. After every new
+// executable the full list and every executable created so far are exercised
+// again: the queried-set oracle (cyclic run over that executable's own list) and
+// the result oracle apply to each call.
+
+type sharedScript struct {
+	ULen    int
+	C       int
+	Subsets [][]int // empty slice = QuickConfigureExec("")
+}
+
+func genShared(rng *rand.Rand) sharedScript {
+	sc := sharedScript{ULen: 3 + rng.Intn(3), C: []int{1, 2, 3, 3, 5, 0}[rng.Intn(6)]}
+	k := 3 + rng.Intn(3)
+	for i := 0; i < k; i++ {
+		var sub []int
+		switch x := rng.Intn(100); {
+		case x < 30: // single tag, not the first upstream
+			sub = []int{1 + rng.Intn(sc.ULen-1)}
+		case x < 65: // reordering / non-prefix subset
+			p := rng.Perm(sc.ULen)
+			sub = p[:2+rng.Intn(sc.ULen-1)]
+		case x < 80: // duplicates
+			for j := 0; j < 2+rng.Intn(3); j++ {
+				sub = append(sub, rng.Intn(sc.ULen))
+			}
+		case x < 90: // prefix
+			for j := 0; j <= rng.Intn(sc.ULen); j++ {
+				sub = append(sub, j)
+			}
+		default:
+			sub = []int{}
+		}
+		sc.Subsets = append(sc.Subsets, sub)
+	}
+	return sc
+}
+
+// runShared executes a script; only is >= -1 restricts the calls after the last
+// executable was created to that one target (replay).
+func runShared(sc sharedScript, rng *rand.Rand, only int, restrict bool, reps int) []*caseRun {
+	ups := make([]*memUp, sc.ULen)
+	us := make([]upstream.Upstream, sc.ULen)
+	tags := make([]string, sc.ULen)
+	for i := range ups {
+		ups[i] = &memUp{idx: i}
+		us[i] = ups[i]
+		tags[i] = tagOf(i)
+	}
+	fwd, err := fastforward.VerifNewForward(us, tags, sc.C)
+	if err != nil {
+		rep.Inconclusive("VerifNewForward: %v", err)
+		return nil
+	}
+	var runs []*caseRun
+	var execs []sequence.Executable
+	for k, sub := range sc.Subsets {
+		var args []string
+		for _, i := range sub {
+			args = append(args, tagOf(i))
+		}
+		e, err := fwd.QuickConfigureExec(strings.Join(args, " "))
+		if err != nil {
+			rep.Violation("tag-subset-rejected", fmt.Sprintf("QuickConfigureExec(%q) failed: %v", strings.Join(args, " "), err), map[string]any{"kind": "shared", "script": sc})
+			return runs
+		}
+		ex, ok := e.(sequence.Executable)
+		if !ok {
+			rep.Inconclusive("QuickConfigureExec returned %T", e)
+			return runs
+		}
+		execs = append(execs, ex)
+		rep.Count("shared_forward_executables_created", 1)
+		for t := -1; t <= k; t++ {
+			if restrict && (k != len(sc.Subsets)-1 || t != only) {
+				continue
+			}
+			for r := 0; r < reps; r++ {
+				if abortRun.Load() {
+					return runs
+				}
+				cd := &caseDesc{Mode: "ordered", ULen: sc.ULen, Tags: true, C: sc.C, History: sc.Subsets[:k+1], ExecIdx: t}
+				var pre sequence.Executable = fwd
+				if t >= 0 {
+					pre = execs[t]
+					cd.Subset = sc.Subsets[t]
+					cd.EmptyArgs = len(cd.Subset) == 0
+				}
+				n := cd.n()
+				cd.Outcomes = make([]int, n)
+				for i := range cd.Outcomes {
+					cd.Outcomes[i] = rng.Intn(numOutcomes - 1) // no silent upstreams: calls on one Forward are sequential
+				}
+				cd.Order = rng.Perm(n)
+				cd.Cancel = cancelNone
+				if rng.Intn(3) == 0 {
+					cd.Cancel = rng.Intn(n+1) - 1
+				}
+				decorate(cd, rng)
+				c := runCase(cd, fwd, ups, pre)
+				runs = append(runs, c)
+				rep.Count("shared_forward_calls", 1)
+				if t == -1 {
+					rep.Count("shared_forward_calls_full_list_after_subsets", 1)
+				} else if t < k {
+					rep.Count("shared_forward_calls_through_earlier_executables", 1)
+				}
+			}
+		}
+	}
+	return runs
+}
+
+func sharedForwards(count int) {
+	if abortRun.Load() {
+		return
+	}
+	caselog.Log(map[string]any{"phase": "shared-forward", "forwards": count, "seed": rep.Seed})
+	rng := rand.New(rand.NewSource(rep.Seed*31 + 5))
+	scripts := make([]sharedScript, count)
+	seeds := make([]int64, count)
+	for i := range scripts {
+		scripts[i] = genShared(rng)
+		seeds[i] = rng.Int63()
+	}
+	all := make([][]*caseRun, count)
+	var wg sync.WaitGroup
+	ch := make(chan int)
+	for w := 0; w < 16; w++ {
+		wg.Add(1)
+		go func() {
+			defer wg.Done()
+			for i := range ch {
+				all[i] = runShared(scripts[i], rand.New(rand.NewSource(seeds[i])), 0, false, 1)
+			}
+		}()
+	}
+	for i := range scripts {
+		ch <- i
+	}
+	close(ch)
+	wg.Wait()
+	quiet := quiesce("shared-forward")
+	for _, runs := range all {
+		finalizeAll(runs, quiet)
+		for _, c := range runs {
+			if c != nil && c.judged {
+				rep.Count("judged:shared-forward", 1)
+			}
+		}
+	}
+}
+
 // ---- start index: one Forward reused for many calls ----
 
 func startDistribution() {
@@ -330,7 +488,7 @@ func startDistribution() {
 			for k := range cd.Order {
 				cd.Order[k] = k
 			}
-			c := runCase(cd, fwd, ups)
+			c := runCase(cd, fwd, ups, nil)
 			runs = append(runs, c)
 			if c.short {
 				shorts++
@@ -447,6 +605,13 @@ func main() {
 			os.Exit(3)
 		}
 		switch {
+		case d.Case != nil && len(d.Case.History) > 0:
+			sc := sharedScript{ULen: d.Case.ULen, C: d.Case.C, Subsets: d.Case.History}
+			var runs []*caseRun
+			for i := 0; i < 10; i++ {
+				runs = append(runs, runShared(sc, rand.New(rand.NewSource(rep.Seed+int64(i))), d.Case.ExecIdx, true, 4)...)
+			}
+			finalizeAll(runs, quiesce("replay"))
 		case d.Case != nil && d.Case.Mode != "":
 			var cs []*caseDesc
 			for i := 0; i < 40; i++ {
@@ -502,6 +667,7 @@ func main() {
 	}
 	runtime.GOMAXPROCS(16)
 
+	sharedForwards(rep.Pick(60, 600))
 	startDistribution()
 	checkGlobalStartHist()
 	loopback()
